@@ -1,3 +1,56 @@
+/-
+  C16 / C07 on the API model (`Model/Api.lean`), for writes whose SOURCE is an `SDict` with its own comment tables, and
+  the bridge from `writeText` / `apiRun` to the function the proved C16 theorems speak about (`writeStep`).
+
+  What is proved (plain words)
+
+  1. The API model's write of a builtin dict IS `writeStep`:
+       `writeText_plain_new`              target missing (any file system);
+       `writeText_plain_eq_writeStep`     one-file file system, the existing file may contain anything;
+       `writeText_plain_eq_writeStep_fs`  any file system, if the existing file has no include directive (`NoIncl`;
+                                          `readFile_local`: the reader then looks at that one file only).
+     Without `NoIncl` the two differ by construction — `writeStep` reads the target in a one-file world —:
+     `readFile_local_needs_noincl` (witness).
+     Hence **`C16_fold_api`**: any non-empty history of `DictWriter.write(d, target, mode)` calls (builtin dicts, modes
+     arbitrary) on one native target that does not exist at the start, in a world with arbitrary other files: every call
+     completes, the target holds the text of `runWrites`, no other file changes, and `DictReader.read(target)` returns
+     `specFold none ws` (up to the header placeholder entry).  Hypotheses: those of `C16_fold_statement`.
+
+  2. **`C16_append_sd_keeps`** — append of an `SDict` source `s` onto an existing file read as `sd`: the text is `fmtSD` of
+     `appendSD sd s = sd.merge(retyped s)` (ordered if asked), and in that `SDict`
+       * every path of ordinary keys to a non-dict value of the file's data leads to the same value (`merge_sd_keeps`:
+         `C07.merge_keeps_deep` carried through `_clean`);
+       * an ordinary top-level key the file lacks gets the source's value, dicts on both sides are merged recursively
+         (`merge_sd_adds`, `merge_sd_recurses`; dict values up to comment entries `_clean` may delete inside them);
+       * the expression table is `Tbl.merge file source`; the line-comment, block-comment and include tables are
+         sub-tables (`List.Sublist`) of `Tbl.merge file source` (`merge_sd_tables_sub`, unconditional).
+     **`C16_append_sd_exact`** / `merge_sd_tables`: when no dict level of the merged data holds two comment entries of a
+     kind with the same text and no include entry (`C12W.levelFix` / `subsFix`, decidable), `_clean` is the identity:
+     the data is exactly the merged data and each of the four tables is exactly `Tbl.merge file source` — the tables
+     follow the merge rule of the data (existing ids win; `C16_append_sd_comment_ids`).
+     Before `_clean` this holds always: `preMerge_tables`.
+     The requested statement "the tables of the result are `Tbl.merge`" is FALSE without that hypothesis:
+     `merge_sd_tables_statement_false` (file and source both carry a block comment `/*h*/` at the top level under ids 0
+     and 1: `_clean` deletes the second, `dup_merge`).
+
+  3. **`C16_overwrite_sd`** — mode other than `a`, or target missing: the text is `fmtSD` of the re-typed source (ordered
+     if asked), the counter is untouched; `C16_overwrite_sd_indep`: the same text in every file system, for every
+     evaluator and counter.  `C16_overwrite_sd_plain`: a table-less source gives header + plain text.
+
+  4. **`C16_dump_then_read`** — `apiRun [dump {data := d} target, read target]` where `target` does not exist (other files
+     arbitrary): both calls complete; the file holds header + plain text of `normEs d`; the read returns
+     `C12.hdrSD (normEs d)` (the data `normEs d` behind the header placeholder entry).  Hypotheses of `C01_roundtrip_dump`.
+
+  Assumed: keys unique at every dict level (`NodupKeysV`, true of every Python value) for the statements through
+  `_clean`; `flavorOfPath target = some .native` and `resolveSpelled target = target` for the API histories.
+  Not covered: the meaning of the text written for an `SDict` source with comments when it is read back (that is
+  `C12W.C12_write_commented`); `order = True` histories (`C16ext`); Foam targets in the histories; JSON / XML targets.
+
+  Non-vacuity: `exW`, `exSrc` (one line comment id 0, one block comment id 1) appended onto a file with its own line
+  comment: `ex_read`, `ex_append_tables` (tables and data evaluated by the kernel), `ex_append_text`, `ex_append_keeps`,
+  `ex_fix`, `ex_exact`; `ex_collision` (colliding ids: the source's comment is dropped); `ex_overwrite`;
+  `ex_fold_api`; `ex_dump_read`.
+-/
 import DictIO.Props.C16fold
 import DictIO.Props.C13api
 import DictIO.Props.C12write
@@ -899,5 +952,35 @@ theorem ex_dump_read :
   rw [hn] at h
   exact ⟨c', h⟩
 
+/-- why `writeText_plain_eq_writeStep_fs` asks for `NoIncl`: the existing file includes a neighbour; read in the
+    world the neighbour's entry `b` is merged in, read alone (`writeStep`'s one-file file system) the include is
+    "not found" and skipped — so an append in the world writes `b` into the target and `writeStep` does not. -/
+def exInclFs : FS :=
+  [(exTarget, .native "#include 'other'\na 1;\n".toList), (exOther, .native "b 2;".toList)]
+
+theorem readFile_local_needs_noincl :
+    (match readFile evalInt exInclFs {} none exTarget with
+      | .ok (.ok sd _) => (keys sd.data).filter (fun k => !C07.isPhKey k) | _ => []) = [.str ['a'], .str ['b']] ∧
+    (match readFile evalInt [(exTarget, .native "#include 'other'\na 1;\n".toList)] {} none exTarget with
+      | .ok (.ok sd _) => (keys sd.data).filter (fun k => !C07.isPhKey k) | _ => []) = [.str ['a']] := by
+  decide +kernel
+
 end C16sd
 end DictIO
+
+/-
+#print axioms DictIO.C16sd.writeText_plain_eq_writeStep
+#print axioms DictIO.C16sd.writeText_plain_eq_writeStep_fs
+#print axioms DictIO.C16sd.C16_fold_api
+#print axioms DictIO.C16sd.C16_append_sd_keeps
+#print axioms DictIO.C16sd.C16_append_sd_exact
+#print axioms DictIO.C16sd.merge_sd_tables_statement_false
+#print axioms DictIO.C16sd.C16_overwrite_sd
+#print axioms DictIO.C16sd.C16_overwrite_sd_indep
+#print axioms DictIO.C16sd.C16_dump_then_read
+#print axioms DictIO.C16sd.ex_append_tables
+#print axioms DictIO.C16sd.ex_append_text
+#print axioms DictIO.C16sd.ex_fold_api
+#print axioms DictIO.C16sd.ex_dump_read
+-- each: [propext, Classical.choice, Quot.sound] (or a subset)
+-/
